@@ -38,7 +38,12 @@ class Node(object):
         returns:
             list
         """
+        rounds = 0
         while True:
+            rounds += 1
+            if rounds > 64:
+                # variables defined in terms of each other never settle
+                raise SyntaxError('Recursive variable definition')
             tokens = list(utility.flatten(tokens))
             done = True
             if any(t for t in tokens if hasattr(t, 'parse')):
